@@ -452,6 +452,7 @@ def to_model(data_file: typing.IO, _config = None, progress_callback=lambda _: N
 
   state = _State.START
   current_p = None
+  subtitle_text = ""
 
   for line_index, line in enumerate(_none_terminated(lines)):
 
@@ -509,6 +510,7 @@ def to_model(data_file: typing.IO, _config = None, progress_callback=lambda _: N
         continue
 
       current_p = model.P(doc)
+      subtitle_text = ""
 
       current_p.set_begin(start_time)
 
